@@ -52,6 +52,9 @@ class Monitor:
     def after_action(self, r, a):
         pass
 
+    def before_action(self, r, a):
+        pass
+
     def finish(self, r):
         pass
 
@@ -182,8 +185,23 @@ class C15a(Monitor):
 class C17a(Monitor):
     pid = "C17"
 
+    def attach(self, r):
+        self.user_swim = False
+
+    def before_action(self, r, a):
+        if a and a[0] in ("mqtt", "queue", "lagcmd", "postlag", "race") and "/settings/swim/mode" in [x for x in a if isinstance(x, str)]:
+            self.user_swim = True
+        if a and a[0] == "burst" and any(t == "/settings/swim/mode" for t, _ in a[1]):
+            self.user_swim = True
+
     def settled(self, r):
         s = r.sys
+        if _alive(r, "Filtration") and _alive(r, "Swim"):
+            f = s.state("Filtration")
+            if not f.startswith("wintering"):
+                self.user_swim = False
+            elif not self.user_swim and not s.state("Swim").startswith("wintering"):
+                r.report("C17", "swim-not-in-wintering-cycle", f"filtration is {f} but the counter-current pump controller is {s.state('Swim')}: its wintering stir cycle never runs")
         if _alive(r, "Filtration") and s.state("Filtration") == "wintering_waiting" and s.variable_speed() > 0:
             r.report("C17", "pump-on-in-wintering-waiting", "circulation pump on in wintering_waiting")
         if _alive(r, "Swim") and _alive(r, "Filtration") and s.state("Filtration").startswith("wintering"):
